@@ -435,9 +435,11 @@ func (be *BinaryExpression) WriteTo(cw *CodeWriter) {
 	leftNeedsParens := be.Left.Precedence() < myPrecedence
 	if leftNeedsParens {
 		cw.WriteRune('(')
+		cw.IncreaseIndent() // same layout as an explicit GroupedExpression
 	}
 	be.Left.WriteTo(cw)
 	if leftNeedsParens {
+		cw.DecreaseIndent()
 		cw.WriteRune(')')
 	}
 
@@ -452,9 +454,11 @@ func (be *BinaryExpression) WriteTo(cw *CodeWriter) {
 	rightNeedsParens := be.Right.Precedence() <= myPrecedence
 	if rightNeedsParens {
 		cw.WriteRune('(')
+		cw.IncreaseIndent()
 	}
 	be.Right.WriteTo(cw)
 	if rightNeedsParens {
+		cw.DecreaseIndent()
 		cw.WriteRune(')')
 	}
 }
@@ -476,7 +480,9 @@ func (ue *UnaryExpression) WriteTo(cw *CodeWriter) {
 	// Right side needs parens if its precedence is lower than unary
 	if ue.Right.Precedence() < PrecedenceUnary {
 		cw.WriteRune('(')
+		cw.IncreaseIndent()
 		ue.Right.WriteTo(cw)
+		cw.DecreaseIndent()
 		cw.WriteRune(')')
 	} else {
 		ue.Right.WriteTo(cw)
@@ -498,7 +504,9 @@ func (pe *PostfixExpression) WriteTo(cw *CodeWriter) {
 	// Left side needs parens if its precedence is lower than postfix
 	if pe.Left.Precedence() < PrecedencePostfix {
 		cw.WriteRune('(')
+		cw.IncreaseIndent()
 		pe.Left.WriteTo(cw)
+		cw.DecreaseIndent()
 		cw.WriteRune(')')
 	} else {
 		pe.Left.WriteTo(cw)
